@@ -171,6 +171,18 @@ impl Adsr {
         }
     }
 
+    /// `adsr.verif_state()` is the current phase of the ADSR (verification hook, read-only)
+    #[cfg(feature = "verif-hooks")]
+    pub fn verif_state(&self) -> State {
+        self.state
+    }
+
+    /// `adsr.verif_phase_bits()` is the raw value of the phase accumulator (verification hook, read-only)
+    #[cfg(feature = "verif-hooks")]
+    pub fn verif_phase_bits(&self) -> u32 {
+        self.phase_accumulator.verif_accumulator()
+    }
+
     /// `adsr.calc_value()` is a private helper function to calculate the current ADSR value
     fn calc_value(&self) -> f32 {
         // The coefficient for the sample is between 0 and 1.0. This is used to
